@@ -139,6 +139,9 @@ func (x *Exec) doCall(st *State, fi int, c *ssa.CallCommon, site ssa.Instruction
 	x.doCallWith(st, fi, c, site, args, fv, false, k)
 }
 
+// skipCallAnchor: `hv anchortest` sets it to one "call F#k" anchor of the function under test.
+var skipCallAnchor string
+
 func (x *Exec) doCallWith(st *State, fi int, c *ssa.CallCommon, site ssa.Instruction, args []Value, fv Value, isDefer bool, k func(*State, Value)) {
 	fr := st.frames[fi]
 	name := x.calleeName(c, fv)
@@ -162,6 +165,15 @@ func (x *Exec) doCallWith(st *State, fi int, c *ssa.CallCommon, site ssa.Instruc
 	}
 	if c.IsInvoke() {
 		argVals["recv"] = fv
+	}
+	if fi == 0 && skipCallAnchor != "" && anchor == skipCallAnchor {
+		// anchor-deletion test: pretend this call is not there
+		var rv Value
+		if tup, ok := resT.(*types.Tuple); resT != nil && (!ok || tup.Len() > 0) {
+			rv = x.freshValue(st, "skipped", resT)
+		}
+		k(st, rv)
+		return
 	}
 	x.ghostAtX(st, fi, anchor, "before", nil, argVals)
 	step := fi == 0 && x.isStep(anchor)
